@@ -27,8 +27,10 @@ def std_sources(tier):
         S.append(E.src((2, 3, 2), ((1, 1), (2, 1), (2,))))
         S.append(E.src((6,), ((2, 2, 2),), "i8"))
     else:
-        S += E.sources_1d(6)
-        S += E.sources_2d((3, 4))
+        # every 5th chunking of (6,) and of (3,4) (the quick tier's hand-picked
+        # ones are in there), plus edge shapes and other dtypes
+        S += [s for i, s in enumerate(E.sources_1d(6)) if i % 5 == 0 or tuple(s["chunks"][0]) in ((2, 1, 3), (4, 2), (3, 3))]
+        S += [s for i, s in enumerate(E.sources_2d((3, 4))) if i % 5 == 0 or (tuple(s["chunks"][0]), tuple(s["chunks"][1])) in (((1, 2), (2, 2)), ((2, 1), (1, 3)), ((1, 1, 1), (3, 1)))]
         for shp, ch in [((0,), ((0,),)), ((1,), ((1,),)), ((0, 3), ((0,), (1, 2))), ((1, 4), ((1,), (2, 2))), ((2, 3, 2), ((1, 1), (2, 1), (2,))), ((2, 3, 2), ((2,), (1, 1, 1), (1, 1))), ((4, 4), ((2, 2), (1, 3)))]:
             S.append(E.src(shp, ch))
         for c in [(6,), (2, 1, 3), (3, 3), (1, 2, 2, 1)]:
@@ -141,8 +143,8 @@ def ml_shards(tier):
     bounds = {"multi_leaf_depth3": {"ops": len(ops3), "sources": len(S)}}
     if tier != "quick":
         ops4 = OPS.subset(names=ML4_OPS)
-        shards += E.plan_shards(S[:2], ops4, 4)
-        bounds["multi_leaf_depth4"] = {"ops": len(ops4), "sources": 2}
+        shards += E.plan_shards(S[:1], ops4, 4)
+        bounds["multi_leaf_depth4"] = {"ops": len(ops4), "sources": 1}
     else:
         # nested elemwise of three differently chunked leaves under a take and a
         # grid-sensitive consumer needs depth 4; compact alphabet in quick
@@ -174,7 +176,7 @@ def std_thorough(ops=None, d3=True, sources=None):
         bounds = {"depth2": {"ops": len(o), "sources": len(S)}}
         if d3:
             d3ops = OPS.subset(names=D3_OPS)
-            S3 = [s for i, s in enumerate(S) if i % 6 == 0][:16]
+            S3 = [s for i, s in enumerate(S) if i % 6 == 0][:5]
             shards += E.plan_shards(S3, d3ops, 3, binary=False)
             bounds["depth3"] = {"ops": len(d3ops), "sources": len(S3), "binary_ops": False}
         s2, b2 = ml_shards("thorough")
